@@ -28,10 +28,46 @@ PROVED for ALL operation sequences (induction over the history; every state, eve
     edge level removals commute with the strip and the strip is the identity once the owner is gone
     (`Lemmas/PoolEdge.lean`, `strip_then_remove`).
   * `rbf_admit_iff`, `rbf_fee_rule`, `rbf_no_coexistence`: the replacement rule and its effect.
+  * replacement accounting (helper lemmas: `Lemmas/PoolRbf.lean`):
+      - `replacedSet_spec`                  the replaced set = conflicts ∪ their pooled descendants, every id once;
+      - `rbf_admit_iff_distinct_ids`        admission ⇔ structural rules ∧ Σ (fees of the replaced, BY ID) + increment ≤ fee;
+      - `rbf_sound_all_clauses`             every clause of `check_rbf` in plain ∀-form (rules 2 and 5 — also as
+                                            |replacedSet| ≤ MAX_REPLACEMENT_CANDIDATES —, ancestors, inputs, cell deps);
+      - `minReplaceFeeOf_spec`              `min_replace_fee` of a pooled entry: itself + pooled descendants, each once;
+      - `rbf_submit_preserves_inv`          a submission with replacement preserves `PoolInvP`;
+      - `rbf_replaced_are_gone` (`_ok`)     after a submission that passed the admission test no replaced
+                                            transaction (conflict OR descendant) is pooled;
+      - `process_rbf_txs_eq`, `process_rbf_removes_only_replaced`   `process_rbf` removes exactly the replaced set;
+      - `process_rbf_fee_split`             total fee before = total fee after `process_rbf` + replaced fees;
+      - `rbf_total_fee_grows`               an admitted replacement within the ancestor limit (no eviction inside
+                                            `add_entry`: explicit hypothesis) raises the pool's total fee by at least
+                                            min_rbf_rate · size / 1000.
+  * the class of histories on which the aggregates are exact:
+      - `expire_never_taints`, `taint_free_ops`   rmd / set / hdr / limit / repaired expire never set the ghost flag;
+      - `rm_taints_iff_between`, `commit_taints_iff_between`   `remove_entry` / `remove_committed_tx` set it iff the
+                                            entry is pooled between pooled ancestors and pooled descendants;
+      - `add_without_pooled_children_never_taints` (`_sharp`: on actual outputs), `add_taints_iff_children`
+                                            add / submit of a transaction without pooled children never set it;
+                                            `add_entry` sets it iff the new entry ends up with children;
+      - `links_acyclic_after_clean_history` on clean histories no transaction is its own ancestor in the link map;
+      - `detach_never_taints`               `remove_by_detached_proposal` never sets the flag on a clean pool
+                                            (repaired code): the removed entries are re-inserted in the order of
+                                            their — exact — `ancestors_count`, parents before children;
+      - `aggregates_exact_on_clean_ops`     for the code in /repo (`fixF2`): every history all of whose operations are
+                                            `CleanOp` in the state they are applied to ends with all eight aggregates
+                                            exact and `ancestors_count ≤ max_ancestors_count`.  `CleanOp s op` is a
+                                            decidable condition on the operation's arguments and the current state:
+                                            rm / commit: the id is not pooled between pooled ancestors and descendants;
+                                            add / submit: no pooled transaction references an actual output of the new
+                                            one; rmd / set / hdr / limit / expire / detach: no condition.
 PROVED by concrete witnesses (kernel evaluation on 3-transaction histories, each replayed on the real code:
 corpus/C11/*.ops): the aggregates clause is FALSE on histories with the two patterns — `f3_*`, `mid_*` —
 and was false for the unrepaired code — `f2_witness`; `add_entry` could panic — `panic_witness`;
-`*_repaired_witness`: the same histories under the corresponding repair are consistent.
+`*_repaired_witness`: the same histories under the corresponding repair are consistent;
+`dedup_by_fee_undercounts_witness`: de-duplicating the replaced fees by FEE (a `HashSet<Capacity>`) undercounts;
+`expire_prefix_witness`: `remove_expired` before /repo 3724ae4 left orphans and wrong aggregates, the repaired
+one does not; `commit_between_witness`: `remove_committed_tx` of a transaction with a pooled (cell-ref) parent and
+pooled children is the remaining production source of remove-between, repaired `remove_entry_and_descendants` or not.
 
 NOT proved (correspondence run + independent oracle only):
   * `edges.header_deps` = the pooled header deps (the header-dep map is in the model and in the tie, not in
@@ -49,6 +85,7 @@ import CkbVerif.Lemmas.PoolLimit
 import CkbVerif.Lemmas.PoolLinks
 import CkbVerif.Lemmas.PoolAgg
 import CkbVerif.Lemmas.PoolDerived
+import CkbVerif.Lemmas.PoolRbf
 namespace CkbVerif.C11
 open CkbVerif.Pool
 
@@ -376,6 +413,562 @@ example :
     let s := run (empty cfg0 [0]) [.add tx10 .pending 1, .add tx11 .pending 2]
     checkRbf s tx20 = .fee ∧ checkRbf s tx21 = .ok [10] ∧
       ((submit s tx21 .pending 3).1.entries.map (·.tx.id)) = [21] := by
+  decide +kernel
+
+/-! ## replacement accounting (A1–A7) -/
+
+/-- A1. The replaced set is the conflicts together with their pooled descendants, every id ONCE. -/
+theorem replacedSet_spec (s : Pool) (t : Tx) :
+    (replacedSet s t).Nodup ∧ ∀ x, x ∈ replacedSet s t ↔
+      (x ∈ conflictIds s t ∨ ∃ c ∈ conflictIds s t, x ∈ calcDesc s.links c ∧ (getEntry s x).isSome) := by
+  refine ⟨nodup_dedup _, fun x => ?_⟩
+  unfold replacedSet
+  rw [mem_dedup, List.mem_append, List.mem_filter, mem_dedup, List.mem_flatMap]
+  constructor
+  · rintro (h | ⟨⟨l, hl, hx⟩, hp⟩)
+    · exact Or.inl h
+    · obtain ⟨c, hc, rfl⟩ := List.mem_map.mp hl
+      exact Or.inr ⟨c, hc, hx, hp⟩
+  · rintro (h | ⟨c, hc, hx, hp⟩)
+    · exact Or.inl h
+    · exact Or.inr ⟨⟨_, List.mem_map.mpr ⟨c, hc, rfl⟩, hx⟩, hp⟩
+
+/-- non-vacuity of `replacedSet_spec`: replacing tx10 in the chain of three replaces all three, each once -/
+example : replacedSet (run (empty cfg0 [0]) chainOps) tx21 = [10, 11, 12] := by decide +kernel
+
+/-- A2. `check_rbf` admits iff the structural rules hold and the fee covers the sum, over the replaced
+    transactions counted BY ID (two replaced transactions paying the same fee are both counted, a descendant
+    shared by two conflicts once: `replacedSet_spec`), plus the increment. -/
+theorem rbf_admit_iff_distinct_ids (s : Pool) (t : Tx) (hc : conflictIds s t ≠ []) :
+    checkRbf s t = .ok (conflictIds s t) ↔
+      RbfStruct s t ∧ (((replacedSet s t).filterMap (getEntry s)).map (·.tx.fee)).sum
+        + s.cfg.minRbfRate * t.size / Gen.Pool.KW ≤ t.fee := by
+  rw [rbf_admit_iff s t hc, minReplaceFee_eq]
+
+/-- non-vacuity of `rbf_admit_iff_distinct_ids` (and of A3): a conflicting transaction that is admitted -/
+example :
+    let s := run (empty cfg0 [0]) [.add tx10 .pending 1, .add tx11 .pending 2]
+    conflictIds s tx21 ≠ [] ∧ checkRbf s tx21 = .ok (conflictIds s tx21) := by
+  decide +kernel
+
+/-- A3. Everything `check_rbf` checks, as plain statements: an admitted conflicting transaction
+    (1) is answered with the conflict set, (2) pays the replaced fees (by id) plus the increment,
+    (3) spends only inputs of the pooled conflicting transactions or outputs of chain transactions (rule 2),
+    (4) replaces at most `MAX_REPLACEMENT_CANDIDATES` transactions, counted as the code counts
+    (Σ over the conflicts of descendants + 1) and hence as a set (rule 5),
+    (5) has no descendant of a conflict among its pooled ancestors, (6) spends no output of a pooled
+    descendant of a conflict, (7) has no cell dep on an output of a replaced transaction. -/
+theorem rbf_sound_all_clauses (s : Pool) (t : Tx) (c : List Nat) (h : checkRbf s t = .ok c) (hc : conflictIds s t ≠ []) :
+    c = conflictIds s t ∧
+    (((replacedSet s t).filterMap (getEntry s)).map (·.tx.fee)).sum + s.cfg.minRbfRate * t.size / Gen.Pool.KW ≤ t.fee ∧
+    (∀ pt ∈ t.inputs, (∃ cid ∈ conflictIds s t, ∃ e, getEntry s cid = some e ∧ pt ∈ e.tx.inputs) ∨ pt.tx ∈ s.chain) ∧
+    ((conflictIds s t).map fun cid => (calcDesc s.links cid).length + 1).sum ≤ Gen.Pool.MAX_REPLACEMENT_CANDIDATES ∧
+    (replacedSet s t).length ≤ Gen.Pool.MAX_REPLACEMENT_CANDIDATES ∧
+    (∀ cid ∈ conflictIds s t, ∀ d ∈ calcDesc s.links cid, d ∉ calcAnc s.links t.id) ∧
+    (∀ pt ∈ t.inputs, ∀ cid ∈ conflictIds s t, ∀ d ∈ calcDesc s.links cid, (getEntry s d).isSome → pt.tx ≠ d) ∧
+    (∀ pt ∈ t.deps, pt.tx ∉ replacedSet s t) := by
+  obtain ⟨hceq, hfee⟩ := rbf_fee_rule s t c h hc
+  subst hceq
+  obtain ⟨⟨h1, h2, h3, h4, h5⟩, _⟩ := (rbf_admit_iff s t hc).mp h
+  rw [minReplaceFee_eq] at hfee
+  have hsum : ((conflictIds s t).map fun cid => (calcDesc s.links cid).length + 1).sum ≤ Gen.Pool.MAX_REPLACEMENT_CANDIDATES := by
+    have := foldl_len_eq ((conflictIds s t).map fun c => calcDesc s.links c) 0
+    simp only [List.map_map, Nat.zero_add] at this
+    have h2' := Nat.le_of_not_gt h2
+    rw [this] at h2'
+    exact h2'
+  refine ⟨rfl, hfee, ?_, hsum, ?_, ?_, ?_, ?_⟩
+  · intro pt hpt
+    by_cases hch : pt.tx ∈ s.chain
+    · exact Or.inr hch
+    · left
+      have hin : pt ∈ ((conflictIds s t).filterMap (getEntry s)).flatMap fun (e : Entry) => e.tx.inputs := by
+        apply Classical.byContradiction
+        intro hn
+        exact h1 (List.any_eq_true.mpr ⟨pt, hpt, decide_eq_true ⟨hn, hch⟩⟩)
+      obtain ⟨e, he, hpe⟩ := List.mem_flatMap.mp hin
+      obtain ⟨cid, hcid, hg⟩ := List.mem_filterMap.mp he
+      exact ⟨cid, hcid, e, hg, hpe⟩
+  · have h0 := sum_len_succ ((conflictIds s t).map fun c => calcDesc s.links c)
+    simp only [List.map_map, List.length_map] at h0
+    have hs' : ((conflictIds s t).map fun cid => (calcDesc s.links cid).length + 1).sum
+        = (((conflictIds s t).map fun c => calcDesc s.links c).map fun d => d.length + 1).sum := by
+      rw [List.map_map]; rfl
+    have hlen : (replacedSet s t).length ≤ (conflictIds s t).length
+        + ((((conflictIds s t).map fun c => calcDesc s.links c).flatMap id).length) := by
+      unfold replacedSet
+      refine Nat.le_trans (length_dedup_le _) ?_
+      rw [List.length_append]
+      apply Nat.add_le_add_left
+      exact Nat.le_trans (List.length_filter_le _ _) (length_dedup_le _)
+    rw [length_flatMap_id] at hlen
+    rw [hs'] at hsum
+    rw [sum_len_succ, List.length_map] at hsum
+    omega
+  · intro cid hcid d hd hanc
+    apply h3
+    exact List.any_eq_true.mpr ⟨calcDesc s.links cid, List.mem_map.mpr ⟨cid, hcid, rfl⟩,
+      List.any_eq_true.mpr ⟨d, hd, by simpa using hanc⟩⟩
+  · intro pt hpt cid hcid d hd hp heq
+    apply h4
+    refine List.any_eq_true.mpr ⟨pt, hpt, ?_⟩
+    simp only [decide_eq_true_eq]
+    rw [heq]
+    exact List.mem_filter.mpr ⟨(mem_dedup _ d).mpr (List.mem_flatMap.mpr ⟨_, List.mem_map.mpr ⟨cid, hcid, rfl⟩, hd⟩), hp⟩
+  · intro pt hpt hin
+    apply h5
+    exact List.any_eq_true.mpr ⟨pt, hpt, decide_eq_true hin⟩
+
+/-- A4. `min_replace_fee` of a pooled entry (what `get_transaction` reports): the fees of the entry and its
+    pooled descendants, every id once, plus the increment for the entry's own size. -/
+theorem minReplaceFeeOf_spec (s : Pool) (id : Nat) (e : Entry) (hen : enableRbf s.cfg = true)
+    (hg : getEntry s id = some e) :
+    ∃ L : List Nat, L.Nodup ∧
+      (∀ x, x ∈ L ↔ x = id ∨ (x ∈ calcDesc s.links id ∧ (getEntry s x).isSome)) ∧
+      minReplaceFeeOf s id =
+        some (((L.filterMap (getEntry s)).map (·.tx.fee)).sum + s.cfg.minRbfRate * e.tx.size / Gen.Pool.KW) := by
+  refine ⟨dedup (id :: (calcDesc s.links id).filter fun d => (getEntry s d).isSome), nodup_dedup _, fun x => ?_, ?_⟩
+  · rw [mem_dedup, List.mem_cons, List.mem_filter]
+  · unfold minReplaceFeeOf
+    rw [if_pos hen, hg]
+    simp only
+    rw [minReplaceFee_eq]
+
+/-- non-vacuity of `minReplaceFeeOf_spec`: tx10 with child and grandchild: 100 + 110 + 120 + 1500·100/1000 -/
+example :
+    let s := run (empty cfg0 [0]) chainOps
+    enableRbf s.cfg = true ∧ (getEntry s 10).isSome ∧ minReplaceFeeOf s 10 = some 480 := by
+  decide +kernel
+
+/-- the seeded regression of `calculate_min_replace_fee`: the replaced fees collected into a `HashSet<Capacity>`,
+    i.e. de-duplicated BY FEE instead of by id -/
+def minReplaceFeeDedupByFee (s : Pool) (ids : List Nat) (size : Nat) : Nat :=
+  ((dedup ((ids.filterMap (getEntry s)).map (·.tx.fee))).foldl (· + ·) 0) + rateFee s.cfg.minRbfRate size
+
+def txRA : Tx := { id := 30, inputs := [⟨0, 0⟩], deps := [], hdeps := [], nout := 1, size := 400, cycles := 0, fee := 1000 }
+def txRB : Tx := { id := 31, inputs := [⟨30, 0⟩], deps := [], hdeps := [], nout := 1, size := 300, cycles := 0, fee := 1000 }
+def txRT (fee : Nat) : Tx := { id := 32, inputs := [⟨0, 0⟩], deps := [], hdeps := [], nout := 1, size := 500, cycles := 0, fee := fee }
+
+/-- A5. De-duplicating by fee is wrong: A (fee 1000) and its child B (fee 1000 as well) are both replaced
+    by T (500 bytes, min_rbf_rate 1500): the rule demands 1000 + 1000 + 750 = 2750, the by-fee variant
+    would demand 1750; `check_rbf` refuses 2749 and admits 2750. -/
+theorem dedup_by_fee_undercounts_witness :
+    let s := run (empty cfg0 [0]) [.add txRA .pending 1, .add txRB .pending 2]
+    replacedSet s (txRT 2749) = [30, 31] ∧
+    minReplaceFeeDedupByFee s (replacedSet s (txRT 2749)) (txRT 2749).size = 1750 ∧
+    minReplaceFee s (replacedSet s (txRT 2749)) (txRT 2749).size = 2750 ∧
+    checkRbf s (txRT 2749) = .fee ∧ checkRbf s (txRT 2750) = .ok [30] := by
+  decide +kernel
+
+/-- a pooled id has an entry -/
+theorem getEntry_isSome_of_pooled {s : Pool} {x : Nat} (h : ∃ t ∈ txs s, t.id = x) : (getEntry s x).isSome := by
+  cases hg : getEntry s x with
+  | some e => rfl
+  | none =>
+    obtain ⟨t, ht, hid⟩ := h
+    exact absurd hid (getEntry_none hg t ht)
+
+/-- with consistent links the replaced set is the union of what `remove_entry_and_descendants` removes for
+    the conflicts (`rmdIds`), taken in the state before the replacement -/
+theorem mem_replacedSet_iff_rmd {s : Pool} (hL : LinksOK s) (t : Tx) (x : Nat) :
+    x ∈ replacedSet s t ↔ x ∈ (conflictIds s t).flatMap (rmdIds s) := by
+  rw [(replacedSet_spec s t).2 x, List.mem_flatMap]
+  constructor
+  · rintro (h | ⟨c, hc, hx, _⟩)
+    · exact ⟨x, h, List.mem_cons_self⟩
+    · refine ⟨c, hc, ?_⟩
+      by_cases e : x = c
+      · rw [e]; exact List.mem_cons_self
+      · exact List.mem_cons_of_mem _ (List.mem_filter.mpr ⟨hx, by simpa using e⟩)
+  · rintro ⟨c, hc, hm⟩
+    rcases List.mem_cons.mp hm with e | hm
+    · rw [e]; exact Or.inl hc
+    · have hx := (List.mem_filter.mp hm).1
+      refine Or.inr ⟨c, hc, hx, ?_⟩
+      have hanc := (desc_iff_anc hL.struct c x).mp ((mem_calcDesc hL.struct c x).mp hx)
+      have hkey : x ∈ keys s.links := by
+        apply Classical.byContradiction
+        intro hn
+        obtain ⟨p, hp, _⟩ := hanc
+        rw [parentsOf_nil_of_not_key hn] at hp; cases hp
+      exact getEntry_isSome_of_pooled ((hL.keysEq x).mp hkey).1
+
+/-- A6. A submission — with or without replacement — preserves the pool invariant. -/
+theorem rbf_submit_preserves_inv (s : Pool) (h : PoolInvP s) (t : Tx) (st : Status) (ts : Nat) :
+    PoolInvP (submit s t st ts).1 :=
+  pool_inv_step_partial s (.submit t st ts) h
+
+/-- A7 (i), both directions: `process_rbf` removes exactly the replaced set — a pooled transaction outside
+    it survives, one inside it does not. -/
+theorem process_rbf_txs_eq (s : Pool) (h : PoolInvP s) (t : Tx) :
+    txs (processRbf s (conflictIds s t)).1 = (txs s).filter (·.id ∉ replacedSet s t) := by
+  rw [(processRbf_txs _ s h.2.2.1.1).2]
+  apply List.filter_congr
+  intro x _
+  have := mem_replacedSet_iff_rmd h.2.2.1.1 t x.id
+  by_cases h1 : x.id ∈ replacedSet s t
+  · have h2 := this.mp h1; simp [h1, h2]
+  · have h2 : x.id ∉ (conflictIds s t).flatMap (rmdIds s) := fun a => h1 (this.mpr a)
+    simp [h1, h2]
+
+theorem process_rbf_removes_only_replaced (s : Pool) (h : PoolInvP s) (t : Tx) :
+    ∀ x ∈ txs s, x.id ∉ replacedSet s t → x ∈ txs (processRbf s (conflictIds s t)).1 := by
+  intro x hx hn
+  rw [process_rbf_txs_eq s h t]
+  exact List.mem_filter.mpr ⟨hx, by simpa using hn⟩
+
+/-- non-vacuity: an unrelated pooled transaction survives the replacement of tx10 and tx11 -/
+example :
+    PoolInvP (run (empty cfg0 [0, 1]) [.add tx10 .pending 1, .add tx11 .pending 2,
+      .add { tx10 with id := 40, inputs := [⟨1, 0⟩] } .pending 3]) ∧
+    (let s := run (empty cfg0 [0, 1]) [.add tx10 .pending 1, .add tx11 .pending 2,
+      .add { tx10 with id := 40, inputs := [⟨1, 0⟩] } .pending 3]
+     replacedSet s tx21 = [10, 11] ∧ (txs (processRbf s (conflictIds s tx21)).1).map (·.id) = [40]) :=
+  ⟨pool_inv_run_partial _ _ _, by decide +kernel⟩
+
+/-- A6. After a submission that passed the admission test (result `.ok`, `.full`, or a failed `add_entry`
+    after the replacement — everything but `.rbf _` / `.dead`), no replaced transaction is pooled, except
+    possibly the submitted id itself (a re-submission of a pooled id). Conflicts AND their descendants. -/
+theorem rbf_replaced_are_gone (s : Pool) (h : PoolInvP s) (t : Tx) (st : Status) (ts : Nat)
+    (hres : ∀ r, (submit s t st ts).2 ≠ .rbf r) (hdead : (submit s t st ts).2 ≠ .dead) :
+    ∀ x ∈ replacedSet s t, x ≠ t.id → getEntry (submit s t st ts).1 x = none := by
+  intro x hx hne
+  have hs1 := process_rbf_txs_eq s h t
+  have key : ∀ y ∈ txs (addEntry (processRbf s (conflictIds s t)).1 t st ts).1, y.id ≠ x := by
+    intro y hy hid
+    rcases addEntry_txs_sub _ t st ts y hy with a | a
+    · rw [hs1] at a
+      have := (List.mem_filter.mp a).2
+      simp only [decide_eq_true_eq] at this
+      exact this (by rw [hid]; exact hx)
+    · rw [a] at hid; exact hne hid.symm
+  rcases submit_eq s t st ts with he | ⟨r, he⟩ | he
+  · exact absurd (by rw [he]) hdead
+  · exact absurd (by rw [he]) (hres r)
+  · rw [he]
+    cases hg : getEntry (submitTail s (conflictIds s t) t st ts).1 x with
+    | none => rfl
+    | some e =>
+      exfalso
+      obtain ⟨hmem, hid⟩ := getEntry_some hg
+      have hmt : e.tx ∈ txs (submitTail s (conflictIds s t) t st ts).1 := List.mem_map.mpr ⟨e, hmem, rfl⟩
+      rcases submitTail_cases s (conflictIds s t) t st ts with ⟨_, _, hst, _⟩ | ⟨_, hst⟩
+      · rw [hst] at hmt
+        exact key _ ((limitSize_shrinks _).2 _ hmt) hid
+      · rw [hst] at hmt
+        exact key _ hmt hid
+
+/-- the hypothesis form of the task statement: result `.ok` or `.full` -/
+theorem rbf_replaced_are_gone_ok (s : Pool) (h : PoolInvP s) (t : Tx) (st : Status) (ts : Nat)
+    (hres : (∃ r ev lim, (submit s t st ts).2 = .ok r ev lim) ∨ (∃ r ev lim, (submit s t st ts).2 = .full r ev lim)) :
+    ∀ x ∈ replacedSet s t, x ≠ t.id → getEntry (submit s t st ts).1 x = none := by
+  apply rbf_replaced_are_gone s h t st ts
+  · intro r hr
+    rcases hres with ⟨a, b, c, h1⟩ | ⟨a, b, c, h1⟩ <;> (rw [h1] at hr; cases hr)
+  · intro hr
+    rcases hres with ⟨a, b, c, h1⟩ | ⟨a, b, c, h1⟩ <;> (rw [h1] at hr; cases hr)
+
+/-- non-vacuity of `rbf_replaced_are_gone`: an admitted replacement of a parent and its child -/
+example :
+    PoolInvP (run (empty cfg0 [0]) [.add tx10 .pending 1, .add tx11 .pending 2]) ∧
+    (let s := run (empty cfg0 [0]) [.add tx10 .pending 1, .add tx11 .pending 2]
+     replacedSet s tx21 = [10, 11] ∧
+      (match (submit s tx21 .pending 3).2 with | .ok r _ _ => r | _ => []) = [10, 11]) :=
+  ⟨pool_inv_run_partial _ _ _, by decide +kernel⟩
+
+/-- the total fee of the pool -/
+def poolFee (s : Pool) : Nat := (s.entries.map (·.tx.fee)).sum
+
+theorem poolFee_txs (s : Pool) : poolFee s = ((txs s).map (·.fee)).sum := by
+  simp only [poolFee, txs, List.map_map]; rfl
+
+/-- A7 (ii). `process_rbf` takes exactly the replaced fees out of the pool: total before = total after +
+    the fees of the replaced transactions, each once. -/
+theorem process_rbf_fee_split (s : Pool) (h : PoolInvP s) (t : Tx) :
+    poolFee (processRbf s (conflictIds s t)).1 + (((replacedSet s t).filterMap (getEntry s)).map (·.tx.fee)).sum
+      = poolFee s := by
+  have hids : (s.entries.map (·.tx.id)).Nodup := by
+    have := h.2.2.1.1.ids
+    simp only [txs, List.map_map] at this
+    exact this
+  have := sum_split (·.tx.fee) s.entries hids (replacedSet s t) (replacedSet_spec s t).1
+  rw [← filterMap_getEntry_eq] at this
+  rw [poolFee_txs, process_rbf_txs_eq s h t, poolFee, ← this]
+  congr 2
+  simp only [txs, List.filter_map, List.map_map]
+  rfl
+
+/-- A7 (iii). An admitted replacement whose `add_entry` stays within the ancestor limit (so that
+    `check_and_record_ancestors` evicts nothing: hypothesis `hlim`, on the state after `process_rbf`) raises
+    the total fee of the pool by at least `min_rbf_rate · size / 1000`. -/
+theorem rbf_total_fee_grows (s : Pool) (h : PoolInvP s) (t : Tx) (st : Status) (ts : Nat) (c : List Nat)
+    (hadm : checkRbf s t = .ok c) (hc : conflictIds s t ≠ []) (s2 : Pool) (ev : List Nat)
+    (hadd : addEntry (processRbf s c).1 t st ts = (s2, .ok ev))
+    (hlim : (txAncestors (processRbf s c).1 t).1.length + 1 ≤ (processRbf s c).1.cfg.maxAnc) :
+    poolFee s2 ≥ poolFee s + rateFee s.cfg.minRbfRate t.size := by
+  obtain ⟨hceq, hfee⟩ := rbf_fee_rule s t c hadm hc
+  subst hceq
+  rw [minReplaceFee_eq] at hfee
+  have h1 := process_rbf_fee_split s h t
+  obtain ⟨h2, _⟩ := addEntry_ok_within_limit _ t st ts s2 ev hadd hlim
+  have h3 : poolFee s2 = poolFee (processRbf s (conflictIds s t)).1 + t.fee := by
+    rw [poolFee_txs, h2, poolFee_txs]; simp
+  unfold rateFee
+  omega
+
+/-- non-vacuity of `rbf_total_fee_grows`: tx21 (fee 510) replaces tx10 and tx11 (fees 100 + 110) -/
+example :
+    PoolInvP (run (empty cfg0 [0]) [.add tx10 .pending 1, .add tx11 .pending 2]) ∧
+    let s := run (empty cfg0 [0]) [.add tx10 .pending 1, .add tx11 .pending 2]
+    checkRbf s tx21 = .ok [10] ∧ conflictIds s tx21 ≠ [] ∧
+    (addEntry (processRbf s [10]).1 tx21 .pending 3).2 = .ok [] ∧
+    (txAncestors (processRbf s [10]).1 tx21).1.length + 1 ≤ (processRbf s [10]).1.cfg.maxAnc ∧
+    poolFee s = 210 ∧ poolFee (addEntry (processRbf s [10]).1 tx21 .pending 3).1 = 510 :=
+  ⟨pool_inv_run_partial _ _ _, by decide +kernel⟩
+
+/-! ## the class of histories on which the aggregates are exact (B1–B6)
+
+The ghost flag `ghostBad` is set by exactly two code paths: `record_entry_descendants` when it finds pooled
+children of the entry being inserted (F3), and `remove_entry` of an entry that has pooled ancestors and
+pooled descendants.  The theorems below say which operations can reach those paths. -/
+
+/-- the configuration of /repo: repaired `remove_entry_and_descendants` -/
+def cfgR : Cfg := { cfg0 with fixF2 := true }
+
+/-- B1. The repaired `remove_expired` (every expired id leaves with its descendants) never sets the flag. -/
+theorem expire_never_taints (s : Pool) (h : LinksOK s) (order : List Nat) :
+    (removeExpired s order).ghostBad = s.ghostBad :=
+  (gp_removeExpired s.ghostBad order s ⟨h, rfl⟩).2
+
+/-- the operations that never set the flag, whatever their arguments -/
+def TaintFree : Op → Prop
+  | .rmd _ | .set _ _ | .hdr _ | .limit | .expire _ => True
+  | _ => False
+
+/-- B2. `remove_entry_and_descendants`, `set_entry`, `resolve_conflict_header_dep`, `limit_size` and the
+    repaired `remove_expired` never set the flag. -/
+theorem taint_free_ops (s : Pool) (h : PoolInvP s) (op : Op) (hop : TaintFree op) :
+    (step s op).ghostBad = s.ghostBad := by
+  have hL : LinksOK s := h.2.2.1.1
+  cases op with
+  | rmd id => exact removeWithDesc_ghostBad hL id
+  | set id st => exact setEntry_ghostBad s id st
+  | hdr hs => exact (gp_foldRmd s.ghostBad _ s [] ⟨hL, rfl⟩).2
+  | limit => exact (gp_limitLoop s.ghostBad _ s [] ⟨hL, rfl⟩).2
+  | expire order => exact expire_never_taints s hL order
+  | add _ _ _ => cases hop
+  | rm _ => cases hop
+  | commit _ => cases hop
+  | detach _ => cases hop
+  | submit _ _ _ => cases hop
+
+/-- B3. `remove_entry` sets the flag iff the entry is pooled and has both pooled ancestors and pooled
+    descendants. -/
+theorem rm_taints_iff_between (s : Pool) (id : Nat) :
+    (step s (.rm id)).ghostBad = (s.ghostBad || ((getEntry s id).isSome && isBetween s.links id)) :=
+  removeEntry_ghostBad_iff s id
+
+/-- B3 for `remove_committed_tx`: only its `remove_entry` of the committed transaction can set the flag
+    (the `resolve_conflict` part removes with descendants). -/
+theorem commit_taints_iff_between (s : Pool) (h : PoolInvP s) (t : Tx) :
+    (step s (.commit t)).ghostBad = (s.ghostBad || ((getEntry s t.id).isSome && isBetween s.links t.id)) :=
+  commitTx_ghostBad h.2.2.1.1 t
+
+/-- no pooled transaction references an ACTUAL output of `t` (index below `t.nout`: what
+    `record_entry_descendants` looks up), and `t` does not reference one of its own outputs -/
+def NoPooledChildren (s : Pool) (t : Tx) : Prop :=
+  (∀ x ∈ txs s, ∀ o ∈ x.inputs ++ x.deps, o ∉ outputs t) ∧ (∀ o ∈ t.inputs ++ t.deps, o ∉ outputs t)
+
+instance (s : Pool) (t : Tx) : Decidable (NoPooledChildren s t) := by
+  unfold NoPooledChildren; exact inferInstance
+
+/-- B4, sharp form. Inserting — by `add_entry` or by a submission, replacement and evictions included — a
+    transaction none of whose actual outputs is referenced from the pool never sets the flag. -/
+theorem add_without_pooled_children_never_taints_sharp (s : Pool) (h : PoolInvP s) (t : Tx) (st : Status) (ts : Nat)
+    (hno : NoPooledChildren s t) :
+    (step s (.add t st ts)).ghostBad = s.ghostBad ∧ (step s (.submit t st ts)).ghostBad = s.ghostBad :=
+  ⟨addEntry_ghostBad_of_no_children h.2.2.1.1 t st ts hno.1 hno.2,
+    submit_ghostBad_of_no_children h.2.2.1.1 t st ts hno.1 hno.2⟩
+
+/-- B4. No pooled transaction references the id of `t` at all (and `t` does not reference itself): the
+    insertion / submission never sets the flag. -/
+theorem add_without_pooled_children_never_taints (s : Pool) (h : PoolInvP s) (t : Tx) (st : Status) (ts : Nat)
+    (hno : ∀ x ∈ txs s, ∀ o ∈ x.inputs ++ x.deps, o.tx ≠ t.id) (hself : ∀ o ∈ t.inputs ++ t.deps, o.tx ≠ t.id) :
+    (step s (.add t st ts)).ghostBad = s.ghostBad ∧ (step s (.submit t st ts)).ghostBad = s.ghostBad :=
+  add_without_pooled_children_never_taints_sharp s h t st ts
+    ⟨fun x hx o ho hm => hno x hx o ho ((mem_outputs t o).mp hm).1, fun o ho hm => hself o ho ((mem_outputs t o).mp hm).1⟩
+
+/-- B4, exact form. `add_entry` sets the flag iff it succeeds and the new entry ends up with children in
+    the link map (`record_entry_descendants` found pooled users of its outputs: F3). -/
+theorem add_taints_iff_children (s : Pool) (h : PoolInvP s) (t : Tx) (st : Status) (ts : Nat) :
+    (step s (.add t st ts)).ghostBad =
+      (s.ghostBad || (addOk (addEntry s t st ts).2 && !(childrenOf (step s (.add t st ts)).links t.id).isEmpty)) :=
+  addEntry_ghostBad_iff h.2.2.1.1 t st ts
+
+/-- non-vacuity of `add_taints_iff_children`: both values occur (child before parent / parent before child) -/
+example :
+    (step (run (empty cfgR [0]) [.add tx11 .pending 1]) (.add tx10 .pending 2)).ghostBad = true ∧
+    (step (run (empty cfgR [0]) [.add tx10 .pending 1]) (.add tx11 .pending 2)).ghostBad = false := by
+  decide +kernel
+
+/-- On clean histories the link graph is acyclic (a new entry is linked below pooled parents only, unless
+    `record_entry_descendants` found children, which sets the flag). -/
+theorem links_acyclic_after_clean_history (c : Cfg) (chain : List Nat) (ops : List Op)
+    (hclean : (run (empty c chain) ops).ghostBad = false) (y : Nat) : ¬ Anc (run (empty c chain) ops).links y y :=
+  (acycInv_closed.run (empty c chain) ops ⟨linksOK_empty c chain, fun _ y ⟨_, hp, _⟩ => by cases hp⟩).2 hclean y
+
+/-- B5 for `remove_by_detached_proposal`, the code in /repo (`fixF2`): on a clean pool with acyclic links it
+    never sets the flag — the removed entries come back in the order of their `ancestors_count`, which is
+    exact on a clean pool, so parents are re-inserted before their children. -/
+theorem detach_never_taints (s : Pool) (h : PoolInvP s) (hac : AcycInv s) (hfix : s.cfg.fixF2 = true)
+    (hg : s.ghostBad = false) (ids : List Nat) : (step s (.detach ids)).ghostBad = false :=
+  detach_ghost ids s ⟨⟨⟨h.1, h.2.2.1.1, h.2.2.2⟩, h.2.2.1⟩, hac, hfix⟩ hg
+
+/-- non-vacuity of `detach_never_taints`: a clean pool in which a proposed transaction with two descendants
+    is detached; all hypotheses hold and the detach is effective (three entries come back as pending) -/
+example :
+    PoolInvP (run (empty cfgR [0]) (chainOps ++ [.set 10 .proposed])) ∧
+    AcycInv (run (empty cfgR [0]) (chainOps ++ [.set 10 .proposed])) ∧
+    (let s := run (empty cfgR [0]) (chainOps ++ [.set 10 .proposed])
+     s.cfg.fixF2 = true ∧ s.ghostBad = false ∧ s.entries.map (·.status) = [.proposed, .pending, .pending] ∧
+      (step s (.detach [10])).entries.map (fun e => (e.tx.id, e.status)) = [(10, .pending), (11, .pending), (12, .pending)]) :=
+  ⟨pool_inv_run_partial _ _ _,
+    acycInv_closed.run _ _ ⟨linksOK_empty _ _, fun _ y ⟨_, hp, _⟩ => by cases hp⟩, by decide +kernel⟩
+
+/-- B5. The operations that keep a clean pool clean, as a condition on the operation's arguments and the
+    state it is applied to: a removal / commit of an entry that is not between pooled ancestors and
+    descendants, an insertion / submission of a transaction without pooled children; every
+    `remove_entry_and_descendants`, `set_entry`, header-dep resolution, `limit_size`, repaired
+    `remove_expired` and `remove_by_detached_proposal` is clean. -/
+def CleanOp (s : Pool) : Op → Prop
+  | .add t _ _ => NoPooledChildren s t
+  | .submit t _ _ => NoPooledChildren s t
+  | .rm id => ((getEntry s id).isSome && isBetween s.links id) = false
+  | .commit t => ((getEntry s t.id).isSome && isBetween s.links t.id) = false
+  | .rmd _ => True
+  | .set _ _ => True
+  | .hdr _ => True
+  | .limit => True
+  | .expire _ => True
+  | .detach _ => True
+
+instance (s : Pool) : (op : Op) → Decidable (CleanOp s op)
+  | .add t _ _ => inferInstanceAs (Decidable (NoPooledChildren s t))
+  | .submit t _ _ => inferInstanceAs (Decidable (NoPooledChildren s t))
+  | .rm id => inferInstanceAs (Decidable (((getEntry s id).isSome && isBetween s.links id) = false))
+  | .commit t => inferInstanceAs (Decidable (((getEntry s t.id).isSome && isBetween s.links t.id) = false))
+  | .rmd _ => isTrue trivial
+  | .set _ _ => isTrue trivial
+  | .hdr _ => isTrue trivial
+  | .limit => isTrue trivial
+  | .expire _ => isTrue trivial
+  | .detach _ => isTrue trivial
+
+/-- every operation of the history is clean in the state it is applied to -/
+def CleanRun (s : Pool) : List Op → Prop
+  | [] => True
+  | op :: l => CleanOp s op ∧ CleanRun (step s op) l
+
+instance cleanRunDecidable : (s : Pool) → (ops : List Op) → Decidable (CleanRun s ops)
+  | _, [] => isTrue trivial
+  | s, op :: l => @instDecidableAnd _ _ _ (cleanRunDecidable (step s op) l)
+
+/-- a clean operation keeps a clean pool clean (`detach`: for the repaired `remove_entry_and_descendants`) -/
+theorem cleanOp_keeps_clean (s : Pool) (h : PoolInvP s) (hac : AcycInv s) (hfix : s.cfg.fixF2 = true)
+    (hg : s.ghostBad = false) (op : Op) (hop : CleanOp s op) :
+    (step s op).ghostBad = false := by
+  cases op with
+  | add t st ts => exact ((add_without_pooled_children_never_taints_sharp s h t st ts hop).1).trans hg
+  | submit t st ts => exact ((add_without_pooled_children_never_taints_sharp s h t st ts hop).2).trans hg
+  | rm id =>
+    rw [rm_taints_iff_between, hg]
+    have : ((getEntry s id).isSome && isBetween s.links id) = false := hop
+    rw [this]; rfl
+  | commit t =>
+    rw [commit_taints_iff_between s h, hg]
+    have : ((getEntry s t.id).isSome && isBetween s.links t.id) = false := hop
+    rw [this]; rfl
+  | rmd id => exact (taint_free_ops s h (.rmd id) trivial).trans hg
+  | set id st => exact (taint_free_ops s h (.set id st) trivial).trans hg
+  | hdr hs => exact (taint_free_ops s h (.hdr hs) trivial).trans hg
+  | limit => exact (taint_free_ops s h .limit trivial).trans hg
+  | expire o => exact (taint_free_ops s h (.expire o) trivial).trans hg
+  | detach ids => exact detach_never_taints s h hac hfix hg ids
+
+theorem cleanRun_ghostBad (ops : List Op) (s : Pool) (h : PoolInvP s) (hac : AcycInv s) (hfix : s.cfg.fixF2 = true)
+    (hg : s.ghostBad = false) (hrun : CleanRun s ops) : (run s ops).ghostBad = false := by
+  induction ops generalizing s with
+  | nil => exact hg
+  | cons op l ih =>
+    exact ih (step s op) (pool_inv_step_partial s op h) (acycInv_closed.step s op hac)
+      (by rw [(cfg_closed s.cfg).step s op rfl]; exact hfix)
+      (cleanOp_keeps_clean s h hac hfix hg op hrun.1) hrun.2
+
+/-- B5. THE AGGREGATES CLAUSE on the class of clean histories, for the code in /repo (repaired
+    `remove_entry_and_descendants`, repaired `remove_expired`): if every operation of a history from the
+    empty pool is `CleanOp` in the state it is applied to, then in the final state all eight aggregates of
+    every entry equal the recomputation from the links, and `ancestors_count ≤ max_ancestors_count`. -/
+theorem aggregates_exact_on_clean_ops (c : Cfg) (hfix : c.fixF2 = true) (chain : List Nat) (ops : List Op)
+    (hclean : CleanRun (empty c chain) ops) :
+    (run (empty c chain) ops).ghostBad = false ∧
+    ∀ e ∈ (run (empty c chain) ops).entries,
+      e.anc = recomputeAnc (run (empty c chain) ops) e ∧ e.desc = recomputeDesc (run (empty c chain) ops) e ∧
+      e.anc.count ≤ (run (empty c chain) ops).cfg.maxAnc := by
+  have hg := cleanRun_ghostBad ops (empty c chain) (poolInvP_empty c chain)
+    ⟨linksOK_empty c chain, fun _ y ⟨_, hp, _⟩ => by cases hp⟩ hfix rfl hclean
+  refine ⟨hg, fun e he => ?_⟩
+  obtain ⟨a, b⟩ := aggregates_after_clean_history_partial c hfix chain ops hg e he
+  exact ⟨a, b, ancestor_limit_after_clean_history c chain ops hg e he⟩
+
+/-- non-vacuity of B1–B5: a history with insertions, status changes, a detach of a proposed transaction
+    with two descendants (all three come back as pending, in order), removals at the ends of a chain, an
+    expiry in the middle of a chain, `limit_size`, a header-dep resolution, a replacement and a commit is a
+    clean run; the invariant holds (so `expire_never_taints`, `taint_free_ops`,
+    `add_without_pooled_children_never_taints`, `detach_never_taints` apply to its states), and the
+    conclusion is observed -/
+example :
+    let ops := chainOps ++ [.set 10 .proposed, .set 11 .gap, .detach [10], .set 12 .proposed, .rmd 12, .rm 10,
+      .add tx12 .pending 4, .expire [11], .limit, .hdr [3], .add tx10 .pending 5, .submit tx21 .pending 9, .commit tx21]
+    PoolInvP (run (empty cfgR [0]) ops) ∧
+    (cfgR.fixF2 = true ∧ CleanRun (empty cfgR [0]) ops ∧ NoPooledChildren (run (empty cfgR [0]) chainOps) tx21 ∧
+      aggOK (run (empty cfgR [0]) ops) = true ∧
+      (run (empty cfgR [0]) (chainOps ++ [.set 10 .proposed, .set 11 .gap, .detach [10]])).entries.map
+        (fun e => (e.tx.id, e.status, e.anc.count)) = [(10, .pending, 1), (11, .pending, 2), (12, .pending, 3)]) :=
+  ⟨pool_inv_run_partial _ _ _, by decide +kernel⟩
+
+/-- non-vacuity of `rm_taints_iff_between` / `commit_taints_iff_between`: both values occur -/
+example :
+    (step (run (empty cfgR [0]) chainOps) (.rm 11)).ghostBad = true ∧
+    (step (run (empty cfgR [0]) chainOps) (.rm 10)).ghostBad = false ∧
+    (step (run (empty cfgR [0]) chainOps) (.commit tx10)).ghostBad = false := by
+  decide +kernel
+
+/-- B6. `remove_expired` before /repo 3724ae4 (`remove_entry` of the expired ids only): expiry of tx11
+    between tx10 and tx12 leaves tx12 pooled although the transaction of its input is gone, the aggregates
+    wrong and the flag set; the repaired `remove_expired` on the same input leaves tx10 alone, consistent. -/
+theorem expire_prefix_witness :
+    let s := run (empty cfgR [0]) chainOps
+    (aggOK (removeExpiredPreF5 s [11]) = false ∧ (removeExpiredPreF5 s [11]).entries.map (·.tx.id) = [10, 12] ∧
+      getEntry (removeExpiredPreF5 s [11]) 11 = none ∧ (removeExpiredPreF5 s [11]).ghostBad = true) ∧
+    (aggOK (removeExpired s [11]) = true ∧ (removeExpired s [11]).entries.map (·.tx.id) = [10] ∧
+      (removeExpired s [11]).ghostBad = false) := by
+  decide +kernel
+
+def txP : Tx := { id := 50, inputs := [⟨1, 0⟩], deps := [⟨0, 0⟩], hdeps := [], nout := 1, size := 150, cycles := 0, fee := 150 }
+
+/-- B6. The remaining production source of remove-between, with the repaired `remove_entry_and_descendants`:
+    `remove_committed_tx` of a transaction that has a pooled parent and pooled children.
+    (1) tx11 committed while tx10 and tx12 are pooled; (2) the parent is a CELL-REF parent: pooled P (id 50)
+    uses cell 0:0 as a cell dep, tx10 consumes 0:0 (so P is linked as tx10's parent) and has the pooled child
+    tx11; committing tx10 first `remove_entry`s it between P and tx11, then `resolve_conflict` removes P:
+    tx11 stays with `ancestors_count = 2` (itself and P's stale weight) alone in the pool. -/
+theorem commit_between_witness :
+    (let s := run (empty cfgR [0]) chainOps
+     (commitTx s tx11).1.ghostBad = true ∧ aggOK (commitTx s tx11).1 = false ∧ s.ghostBad = false ∧ aggOK s = true) ∧
+    (let s := run (empty cfgR [0, 1]) [.add txP .pending 1, .add tx10 .pending 2, .add tx11 .pending 3]
+     s.ghostBad = false ∧ aggOK s = true ∧ parentsOf s.links 10 = [50] ∧
+     (commitTx s tx10).1.ghostBad = true ∧ aggOK (commitTx s tx10).1 = false ∧
+     (commitTx s tx10).1.entries.map (·.tx.id) = [11] ∧ ancOf (commitTx s tx10).1 11 = some ⟨2, 260, 0, 260⟩) := by
   decide +kernel
 
 end CkbVerif.C11
